@@ -14,6 +14,8 @@ class Unit:
         self.fn_values = {}
         if data.get('crate') == 'fclones' and not os.environ.get('FCVERIF_NO_INLINE'):
             from . import inline as _inline
+            data, self.fn_renames = _inline.normalise_fn_names(data)
+            self.renamed_back = _inline.normalise_names(data) + _inline.normalise_fields(data)
             self.inlined = _inline.inline_unknown(data, _inline.load_known())
             self.fn_values = data.get('_fn_values', {})
         self.crate = data['crate']
